@@ -29,10 +29,79 @@ func (fr *frame) assumeOK(b *ssa.BasicBlock, ok string) {
 	fr.vc.c.assume(implies(fr.cond[b], ok))
 }
 
+// escapeAt updates the lineage information when a local object escapes through ins: if a reference to it is
+// stored into another local object that has itself not escaped, that object joins the set (anything reaching
+// the first must go through the second); otherwise the lineage is dropped.
+func (fr *frame) escapeAt(st *state, ins ssa.Instruction) {
+	if len(st.base) == 0 {
+		return
+	}
+	if _, isRet := ins.(*ssa.Return); isRet {
+		return
+	}
+	ei := fr.vc.ma.escape(fr.fn)
+	for obj, escs := range ei.escapes {
+		hit := false
+		for _, e := range escs {
+			if e == ins {
+				hit = true
+			}
+		}
+		if !hit {
+			continue
+		}
+		ot, ok := fr.objTerm[obj]
+		if !ok {
+			continue
+		}
+		// a call that is executed in place is followed instruction by instruction instead
+		if ci, isCall := ins.(*ssa.Call); isCall {
+			if callee := ci.Call.StaticCallee(); callee != nil && !ci.Call.IsInvoke() && fr.willInline(callee) {
+				continue
+			}
+		}
+		var into *baseObj
+		if s, isStore := ins.(*ssa.Store); isStore {
+			_, root := fr.vc.ma.valueRoot(s.Addr, map[*ssa.BasicBlock]bool{}, 0)
+			if root != nil && isLocalAllocation(root) && ei.safeStore(s, root) {
+				if t2, ok2 := fr.objTerm[root]; ok2 {
+					into = &t2
+				}
+			}
+		}
+		for k, b := range st.base {
+			has := false
+			for _, o := range b.objs {
+				if o.term == ot.term {
+					has = true
+				}
+			}
+			if !has {
+				continue
+			}
+			if into == nil {
+				delete(st.base, k)
+				continue
+			}
+			dup := false
+			for _, o := range b.objs {
+				if o.term == into.term {
+					dup = true
+				}
+			}
+			if !dup {
+				b.objs = append(b.objs, *into)
+				st.base[k] = b
+			}
+		}
+	}
+}
+
 func (fr *frame) block(b *ssa.BasicBlock, st *state) {
 	vc := fr.vc
 	c := vc.c
 	for _, ins := range b.Instrs {
+		fr.escapeAt(st, ins)
 		switch x := ins.(type) {
 		case *ssa.DebugRef:
 		case *ssa.Phi:
@@ -206,6 +275,7 @@ func (fr *frame) doAlloc(b *ssa.BasicBlock, st *state, x *ssa.Alloc) {
 		tyid = vc.w.typeID(el)
 	}
 	r := fr.newObj(st, x, tyid)
+	fr.objTerm[x] = baseObj{fmt.Sprintf("(oid %s)", r), el}
 	// allocation does not change the heap arrays: the cells of the fresh object are assumed to hold zero values
 	if at, ok := el.Underlying().(*types.Array); ok {
 		if at.Len() <= 16 {
@@ -340,7 +410,45 @@ func (fr *frame) doStore(b *ssa.BasicBlock, st *state, x *ssa.Store) {
 		fr.oblPanic(b, "nil", x, fmt.Sprintf("(= %s nil)", a))
 		fr.assumeOK(b, fmt.Sprintf("(distinct %s nil)", a))
 	}
+	// lineage: a store into a local object that has not escaped leaves every spec term over other objects unchanged
+	kind, root := fr.vc.ma.valueRoot(x.Addr, nil, 0)
+	var objT baseObj
+	if kind == rFresh || kind == rValue {
+		_, root = fr.vc.ma.valueRoot(x.Addr, map[*ssa.BasicBlock]bool{}, 0) // resolve to the allocation itself
+	}
+	if root != nil && isLocalAllocation(root) && fr.vc.ma.escape(fr.fn).safeStore(x, root) {
+		objT = fr.objTerm[root]
+	}
+	var before map[string]string
+	if objT.term != "" {
+		before = map[string]string{}
+		for _, lf := range c.leaves(x.Val.Type()) {
+			k := c.cellKey(lf.typ)
+			before[k] = c.heapGet(st, k)
+		}
+	}
 	c.storeAt(st, a, x.Val.Type(), fr.val(x.Val))
+	for _, lf := range c.leaves(x.Val.Type()) {
+		k := c.cellKey(lf.typ)
+		if objT.term == "" {
+			delete(st.base, k)
+			continue
+		}
+		if b, ok := st.base[k]; ok {
+			found := false
+			for _, o := range b.objs {
+				if o.term == objT.term {
+					found = true
+				}
+			}
+			if !found {
+				b.objs = append(b.objs, objT)
+			}
+			st.base[k] = b
+		} else {
+			st.base[k] = heapBase{term: before[k], objs: []baseObj{objT}}
+		}
+	}
 	fr.compact(st)
 }
 
@@ -523,6 +631,8 @@ func (fr *frame) doMakeSlice(b *ssa.BasicBlock, st *state, x *ssa.MakeSlice) {
 	st.alloc = na
 	el := x.Type().Underlying().(*types.Slice).Elem()
 	res := fr.define(x, fmt.Sprintf("(mk-slice %s 0 %s)", rn, ln))
+	fr.objTerm[x] = baseObj{fmt.Sprintf("(oid %s)", rn), el}
+	fr.vc.assumeG(fmt.Sprintf("(= (tyof %s) (- 2000))", rn))
 	fr.zeroRegion(st, el, res)
 }
 
@@ -543,6 +653,8 @@ func (fr *frame) doAppend(b *ssa.BasicBlock, st *state, x ssa.Value, args []ssa.
 		return
 	}
 	res := fr.define(x, fmt.Sprintf("(mk-slice %s 0 (+ (slen %s) (slen %s)))", rn, s, t))
+	fr.objTerm[x] = baseObj{fmt.Sprintf("(oid %s)", rn), el}
+	fr.vc.assumeG(fmt.Sprintf("(= (tyof %s) (- 2000))", rn))
 	for _, lf := range c.leaves(el) {
 		k := c.cellKey(lf.typ)
 		H := c.heapGet(st, k)
